@@ -587,7 +587,8 @@ vk_proof_models! { unwind 6; fn c02_kernel_bare_zero() { let o = check_assert_ke
 
 
 // ---------------------------------------------------------------------------------------------
-// C03 deduction kernel. (Whole add_transaction harnesses were tried and dropped: two postings give
+// C03 deduction kernel. (Whole add_transaction harnesses were tried and dropped - again from an empty ledger state
+// with concrete shapes in the second session: 1.8 M steps, > 23 GB: two postings give
 // 1.7M symbolic-execution steps and exhaust 30 GB in the SAT back end — DESIGN section 7.)
 // add_transaction computes `deduced = balance.negate()` from the fold of the other postings' balancing
 // values and books it with `bal.add_amount(account, deduced)`.
@@ -715,6 +716,7 @@ vk_proof_models! {
     #[cfg_attr(kani, kani::stub(crate::report::book_keeping::add_transaction, crate::report::book_keeping::verif_kani::cut_add_transaction))]
     unwind 6; fn c12_declare_commodity() { decl_harness(true); }
 }
+
 
 #[cfg(all(test, not(kani)))]
 #[test]
